@@ -17,8 +17,12 @@ _TAG = "" if REPO == "/repo" else "_" + re.sub(r"[^A-Za-z0-9]+", "_", REPO).stri
 GEN = os.path.join(VERIF, "gen" + _TAG)
 WORK = os.path.join(VERIF, "_work" + _TAG)
 BIN = os.path.join(WORK, "bin")
-EVID = os.path.join(VERIF, "evidence")
-REPLAYS = os.path.join(VERIF, "replays")
+# evidence/ holds runs against /repo itself; development runs (another checkout through VERIF_REPO, or
+# VERIF_EVIDENCE_DIR set while a change is applied to /repo for testing) write elsewhere
+EVID = os.environ.get("VERIF_EVIDENCE_DIR") or (os.path.join(VERIF, "evidence") if REPO == "/repo"
+                                                 else os.path.join(WORK, "evidence"))
+REPLAYS = os.path.join(VERIF, "replays") if REPO == "/repo" and not os.environ.get("VERIF_EVIDENCE_DIR") \
+    else os.path.join(WORK, "replays")
 CORPUS = os.path.join(VERIF, "corpus")
 KNOWN = os.path.join(VERIF, "known_findings.json")
 
